@@ -168,9 +168,11 @@ impl StateMachine<'_> {
                     self.get_next_color(Some(key_color))
                 }
             }
-            (None, _, true) => delta_unreachable("is_repeat cannot be true when key has no color."),
-            (Some(_), None, _) => {
-                delta_unreachable("There must be a previous key if the key has a color.")
+            // The previous line had a color of its own from git (it is not in the memo):
+            // there is nothing of ours to collide with, or to repeat.
+            (Some(key_color), None, _) => key_color.to_owned(),
+            (None, previous_key_color, true) => {
+                self.get_next_color(previous_key_color.map(|c| c.as_str()))
             }
         }
     }
